@@ -1,7 +1,22 @@
 import Blf.QueueConc
+import Blf.Pipe
+import Blf.WPipe
+import Blf.PipeTie
 /-!
 # C06 — No API call blocks forever: the three-stage pipeline cannot deadlock
-(queue stage proved for every capacity, object count and interleaving; stream stage and composition under construction)
+
+* the queue stage alone (`Blf.QueueConc`): every capacity, object count and interleaving;
+* the **read pipeline** (`Blf.Pipe`): inflater, parser, application over the in-memory stream and the object queue —
+  every stream buffer size, queue capacity ≥ 1, container sizes, parser program (any reads, seeks, pushes; in particular
+  reads larger than the stream buffer) and every interleaving, including `close()` at any time;
+* the **write pipeline** (`Blf.WPipe`): application, encoder, compressor — every buffer size, capacity ≥ 1, container
+  size ≥ 1 (in particular above the stream buffer), object sizes and every interleaving.
+
+Modelled, not proved here: the positions of the in-memory stream move as `Blf.UFile` says (`Blf.PipeTie`), `Blf.UFile`
+and `Blf.Queue` are the C++ monitors (correspondence runs `useq`, `qseq`, `demand`), a C++ condition-variable wait is
+"sleep until notified, then re-evaluate the predicate", and the worker loops are the programs of `Blf.Pipe`/`Blf.WPipe`
+(controlled-scheduler runs of the real library compare outcomes).  Outside: `abort()` racing with workers that throw,
+allocation failure, and the case container size 0 (the compressor would cut empty containers for ever — see DESIGN.md).
 -/
 namespace Blf.Props
 open Blf.QueueConc
@@ -26,5 +41,57 @@ theorem C06_queue_no_lost_wakeup (cap : Nat) (hc : 0 < cap) (objs : List Nat) (h
 example : ∃ s, Reach 1 [7, 8] s ∧ s.prod = .asleep .tellg := by
   refine ⟨_, Reach.step _ _ (Reach.step _ _ Reach.init (Step.send _ 7 [8] rfl rfl (by decide)))
     (Step.sendBlock _ 8 [] rfl rfl (by decide)), rfl⟩
+
+/-! ## read session: inflater → in-memory stream → parser → object queue → application -/
+
+/-- **read pipeline, no deadlock**: in every reachable state that is not final some thread can take a step other than
+    `close()`, unless the application has already received the null result (then `close()` is what remains).  So
+    `File::read()` never blocks for ever, under any interleaving, for any sizes. -/
+theorem C06_read_pipeline_no_deadlock (bufU : Int) (capQ : Nat) (hc : 0 < capQ) (conts : List Nat) (prog : List Pipe.POp)
+    (hs : (Pipe.qwrites prog).length < Blf.Queue.U32MAX) (s : Pipe.Sys) (h : Pipe.Reach bufU capQ conts prog s)
+    (hnf : ¬ Pipe.Final s) :
+    (∃ t, Pipe.Step s t ∧ t.stopReq = s.stopReq) ∨ (s.app = .running ∧ s.sawNull = true) :=
+  Pipe.no_deadlock prog s (Pipe.reach_inv bufU capQ hc conts prog hs s h) hnf
+
+/-- **read pipeline, termination**: every step strictly decreases a measure — every schedule is finite, so together with
+    `C06_read_pipeline_no_deadlock` every schedule in which the application eventually closes ends in the final state
+    (all threads joined) -/
+theorem C06_read_pipeline_terminates (s t : Pipe.Sys) (h : Pipe.Step s t) : Pipe.measure t < Pipe.measure s :=
+  Pipe.measure_step s t h
+
+/-- **read pipeline, no lost wake-up**: whoever sleeps has a false guard -/
+theorem C06_read_pipeline_no_lost_wakeup (bufU : Int) (capQ : Nat) (hc : 0 < capQ) (conts : List Nat) (prog : List Pipe.POp)
+    (hs : (Pipe.qwrites prog).length < Blf.Queue.U32MAX) (s : Pipe.Sys) (h : Pipe.Reach bufU capQ conts prog s) :
+    (∀ m cv, s.inf = .asleep m cv → s.u.guardWrite = false) ∧
+    (∀ m cv, s.par = .asleep m cv →
+      (∃ n r, s.prog = .uread n :: r ∧ s.u.guardRead n = false) ∨
+      (∃ x r, s.prog = .qwrite x :: r ∧ Blf.Queue.guard s.q (.write x) = false)) ∧
+    (∀ m cv, s.app = .asleep m cv → Blf.Queue.guard s.q .read = false) := by
+  have hi := Pipe.reach_inv bufU capQ hc conts prog hs s h
+  refine ⟨fun m cv hm => (hi.infSleep m cv hm).2.2, fun m cv hm => ?_, fun m cv hm => (hi.appSleep m cv hm).2.2.1⟩
+  rcases hi.parSleep m cv hm with ⟨_, _, n, r, h1, h2, _⟩ | ⟨_, _, x, r, h1, h2⟩
+  · exact Or.inl ⟨n, r, h1, h2⟩
+  · exact Or.inr ⟨x, r, h1, h2⟩
+
+/-- the step `uread` of the read pipeline is what `UncompressedFile::read` does to the positions (`Blf.UFile.read`) -/
+theorem C06_tie_read (s : Blf.UFile.State) (n : Nat) :
+    ∃ j : Nat, j ≤ n ∧ PipeTie.up (Blf.UFile.read s n).1 = { PipeTie.up s with tellg := (PipeTie.up s).tellg + j, demand := 0 } :=
+  PipeTie.read_up s n
+
+/-! ## write session: application → object queue → encoder → in-memory stream → compressor -/
+
+/-- **write pipeline, no deadlock**: in every reachable non-final state some thread can take a step: `File::write()` and
+    `File::close()` never block for ever — for every container size ≥ 1, also above the stream buffer size -/
+theorem C06_write_pipeline_no_deadlock (sz : Nat → Nat) (bufU : Int) (capQ : Nat) (hc : 0 < capQ) (cs : Nat) (hcs : 0 < cs)
+    (objs : List Nat) (hs : objs.length < Blf.Queue.U32MAX) (hb : (WPipe.total sz objs : Int) + cs < Blf.UFile.I64MAX)
+    (s : WPipe.Sys) (h : WPipe.Reach sz bufU capQ cs objs s) (hnf : ¬ WPipe.Final s) : ∃ t, WPipe.Step sz s t :=
+  WPipe.no_deadlock sz objs s (WPipe.reach_inv sz bufU capQ hc cs hcs objs hs hb s h) hnf
+
+/-- **write pipeline, termination** -/
+theorem C06_write_pipeline_terminates (sz : Nat → Nat) (bufU : Int) (capQ : Nat) (hc : 0 < capQ) (cs : Nat) (hcs : 0 < cs)
+    (objs : List Nat) (hs : objs.length < Blf.Queue.U32MAX) (hb : (WPipe.total sz objs : Int) + cs < Blf.UFile.I64MAX)
+    (s t : WPipe.Sys) (h : WPipe.Reach sz bufU capQ cs objs s) (hst : WPipe.Step sz s t) :
+    WPipe.measure sz objs t < WPipe.measure sz objs s :=
+  WPipe.measure_step sz objs s t (WPipe.reach_inv sz bufU capQ hc cs hcs objs hs hb s h) hst
 
 end Blf.Props
